@@ -181,6 +181,17 @@ PLAN = {
             {"run": "TestC16_File", "checks": 1000000, "shards": 6, "timeout": 3000},
         ],
     },
+    "C17": {
+        "wtf": True,
+        "quick": [
+            {"run": "TestC17_Search", "checks": 200},
+            {"run": "TestC17_Subcommands", "checks": 250},
+        ],
+        "thorough": [
+            {"run": "TestC17_Search", "checks": 6000, "shards": 10, "timeout": 3000},
+            {"run": "TestC17_Subcommands", "checks": 12000, "shards": 6, "timeout": 3000},
+        ],
+    },
     "C18": {
         "quick": [
             {"run": "TestC18_Identity", "checks": 15000},
